@@ -370,7 +370,7 @@ func visitInstr(fr *Frame, instr ssa.Instruction) cont {
 		if addr == nil {
 			p.goPanicf("runtime error: invalid memory address or nil pointer dereference")
 		}
-		*addr = copyVal(fr.get(instr.Val))
+		storeInto(addr, fr.get(instr.Val))
 	case *ssa.If:
 		c := fr.get(instr.Cond)
 		var d bool
@@ -711,6 +711,28 @@ func (fr *Frame) prepareCall(call *ssa.CallCommon) (fn Value, args []Value) {
 		args = append(args, fr.get(a))
 	}
 	return
+}
+
+// storeInto assigns v to the cell, field by field for aggregates so that
+// pointers to fields / elements taken earlier stay valid (as in Go).
+func storeInto(addr *Value, v Value) {
+	switch rhs := v.(type) {
+	case Struct:
+		if lhs, ok := (*addr).(Struct); ok && len(lhs) == len(rhs) {
+			for i := range lhs {
+				storeInto(&lhs[i], rhs[i])
+			}
+			return
+		}
+	case Array:
+		if lhs, ok := (*addr).(Array); ok && len(lhs) == len(rhs) {
+			for i := range lhs {
+				storeInto(&lhs[i], rhs[i])
+			}
+			return
+		}
+	}
+	*addr = copyVal(v)
 }
 
 type primFunc struct {
